@@ -104,3 +104,271 @@ Proof.
 Qed.
 Theorem decode_scalar e : wf e -> is_scalar (string_to_usv_m e).
 Proof. intros W. rewrite usv_eq_dec by exact W. now apply wf_dec_encode. Qed.
+
+(* ------------------------------------------------------------------ scanning for boundaries *)
+
+(** the first byte (if any) is not a continuation byte *)
+Definition starts_ok (r : list Z) : Prop :=
+  match r with [] => True | b :: _ => byte_is_boundary b = true end.
+
+Lemma utf8_starts_ok r : utf8 r = true -> starts_ok r.
+Proof.
+  intros U. apply utf8_iff in U as (es & -> & F). destruct F as [|e es He F]; [exact I|].
+  apply wf_chunk in He. destruct e as [|a t]; [destruct He|]. exact (proj1 He).
+Qed.
+
+Lemma forgiving_inner e r i : chunk e -> 0 < i < zlen e -> forgiving_m (e ++ r) i = false.
+Proof.
+  intros He Hi. unfold forgiving_m. rewrite zlen_app. pose proof (zlen_nonneg r).
+  destruct (Z.leb_spec (zlen e + zlen r) i); [lia|]. now apply chunk_inner.
+Qed.
+
+Lemma forgiving_next e r : starts_ok r -> forgiving_m (e ++ r) (zlen e) = true.
+Proof.
+  intros Hr. unfold forgiving_m. rewrite zlen_app.
+  destruct r as [|b r]; [rewrite zlen_nil; replace (zlen e + 0 <=? zlen e) with true by lia; reflexivity|].
+  rewrite zlen_cons. pose proof (zlen_nonneg r).
+  destruct (Z.leb_spec (zlen e + (zlen r + 1)) (zlen e)); [lia|].
+  rewrite byte_at_app_r by lia. rewrite Z.sub_diag. exact Hr.
+Qed.
+
+Lemma forgiving_app_r l e p : zlen l <= p -> forgiving_m (l ++ e) p = forgiving_m e (p - zlen l).
+Proof.
+  intros H. unfold forgiving_m. rewrite zlen_app, byte_at_app_r by lia.
+  replace (zlen l + zlen e <=? p) with (zlen e <=? p - zlen l) by lia. reflexivity.
+Qed.
+
+Lemma find_next_go_chunk e r : chunk e -> starts_ok r -> forall k fuel pos,
+  Z.of_nat k = zlen e - 1 - pos -> 0 <= pos -> (k < fuel)%nat ->
+  find_next_go fuel (e ++ r) pos = Ok (zlen e).
+Proof.
+  intros He Hr. induction k as [|k IH]; intros fuel pos Hk Hp Hf;
+    (destruct fuel as [|fuel]; [lia|]); cbn [find_next_go].
+  - replace (pos + 1) with (zlen e) by lia. now rewrite forgiving_next.
+  - rewrite forgiving_inner by (trivial; lia). apply IH; lia.
+Qed.
+
+Lemma find_next_chunk e r : chunk e -> starts_ok r -> find_next_m (e ++ r) 0 = Ok (zlen e).
+Proof.
+  intros He Hr. unfold find_next_m. pose proof (chunk_len e He).
+  apply (find_next_go_chunk e r He Hr (Z.to_nat (zlen e - 1))); try lia.
+  rewrite app_length. unfold zlen in *. lia.
+Qed.
+
+Lemma find_prev_go_chunk l e : chunk e -> forall k fuel pos,
+  Z.of_nat k = pos - zlen l -> pos < zlen l + zlen e -> (k < fuel)%nat ->
+  find_prev_go fuel (l ++ e) pos = Ok (zlen l).
+Proof.
+  intros He. pose proof (zlen_nonneg l) as Hl. pose proof (chunk_len e He) as Le.
+  induction k as [|k IH]; intros fuel pos Hk Hp Hf;
+    (destruct fuel as [|fuel]; [lia|]); cbn [find_prev_go]; rewrite forgiving_app_r by lia.
+  - replace (pos - zlen l) with 0 by lia. replace pos with (zlen l) by lia.
+    assert (F : forgiving_m e 0 = true).
+    { unfold forgiving_m. destruct (Z.leb_spec (zlen e) 0); [lia|].
+      rewrite <- (app_nil_r e). now apply chunk_head. }
+    now rewrite F.
+  - rewrite <- (app_nil_r e). rewrite forgiving_inner by (trivial; lia).
+    destruct (Z.eqb_spec pos 0); [lia|]. rewrite app_nil_r. apply IH; lia.
+Qed.
+
+Lemma find_prev_chunk l e : chunk e -> find_prev_m (l ++ e) (zlen (l ++ e)) = Ok (zlen l).
+Proof.
+  intros He. unfold find_prev_m. pose proof (chunk_len e He). pose proof (zlen_nonneg l).
+  rewrite zlen_app. rewrite Z.max_r by lia.
+  apply (find_prev_go_chunk l e He (Z.to_nat (zlen e - 1))); try lia.
+  rewrite app_length. unfold zlen in *. lia.
+Qed.
+
+Lemma split_at_ok s k : 0 <= k <= zlen s -> forgiving_m s k = true ->
+  split_at_m s k = Ok ((0, k), (k, zlen s - k)).
+Proof.
+  intros Hk F. unfold split_at_m, str_up_to_m, str_from_m, slice_up_to_v, slice_from_v, whole.
+  rewrite F. destruct (Z.ltb_spec (zlen s) k); [lia|]. now rewrite Z.add_0_l.
+Qed.
+
+Lemma sub_prefix e r : sub (e ++ r) (0, zlen e) = e.
+Proof.
+  unfold sub, zlen. cbn [fst snd]. change (Z.to_nat 0) with 0%nat. cbn [skipn].
+  rewrite Nat2Z.id, firstn_app, Nat.sub_diag, firstn_all.
+  cbn [firstn]. apply app_nil_r.
+Qed.
+Lemma sub_suffix e r : sub (e ++ r) (zlen e, zlen (e ++ r) - zlen e) = r.
+Proof.
+  unfold sub. cbn [fst snd]. rewrite zlen_app. replace (zlen e + zlen r - zlen e) with (zlen r) by lia.
+  unfold zlen. rewrite !Nat2Z.id, skipn_app, Nat.sub_diag, skipn_all. cbn [skipn app]. apply firstn_all.
+Qed.
+
+Lemma utf8_wf e : wf e -> utf8 e = true.
+Proof. intros W. rewrite <- (app_nil_r e). change (e ++ []) with (concat [e]). apply utf8_concat. now constructor. Qed.
+
+(** one forward step on [e ++ r] splits exactly the first character off and decodes it *)
+Lemma front_step_wf e r : wf e -> utf8 r = true ->
+  front_step (e ++ r) = Ok (Some (dec_char e, zlen e, (zlen e, zlen r))).
+Proof.
+  intros W U. pose proof (wf_chunk e W) as C. pose proof (chunk_len e C) as Le.
+  assert (N : front_step (e ++ r) =
+              match find_next_m (e ++ r) 0 with
+              | Ok k => match split_at_m (e ++ r) k with
+                        | Ok (p, n) => Ok (Some (string_to_usv_m (sub (e ++ r) p), k, n))
+                        | Panic x => Panic x | OutOfFuel => OutOfFuel end
+              | Panic x => Panic x | OutOfFuel => OutOfFuel end).
+  { destruct e; [destruct C | reflexivity]. }
+  rewrite N, find_next_chunk by (trivial; now apply utf8_starts_ok).
+  rewrite split_at_ok; [| rewrite zlen_app; pose proof (zlen_nonneg r); lia
+                        | apply forgiving_next; now apply utf8_starts_ok].
+  rewrite sub_prefix, usv_eq_dec by exact W. rewrite zlen_app.
+  replace (zlen e + zlen r - zlen e) with (zlen r) by lia. reflexivity.
+Qed.
+
+(** one backward step on [l ++ e] splits exactly the last character off and decodes it *)
+Lemma back_step_wf l e : utf8 l = true -> wf e ->
+  back_step (l ++ e) = Ok (Some (dec_char e, zlen l, (0, zlen l))).
+Proof.
+  intros U W. pose proof (wf_chunk e W) as C. pose proof (chunk_len e C) as Le.
+  assert (N : back_step (l ++ e) =
+              match find_prev_m (l ++ e) (zlen (l ++ e)) with
+              | Ok k => match split_at_m (l ++ e) k with
+                        | Ok (p, n) => Ok (Some (string_to_usv_m (sub (l ++ e) n), k, p))
+                        | Panic x => Panic x | OutOfFuel => OutOfFuel end
+              | Panic x => Panic x | OutOfFuel => OutOfFuel end).
+  { destruct (l ++ e) eqn:E; [|reflexivity]. apply (f_equal (@length Z)) in E.
+    rewrite app_length in E. unfold zlen in Le. cbn in E. lia. }
+  rewrite N, find_prev_chunk by trivial.
+  rewrite split_at_ok; [| rewrite zlen_app; pose proof (zlen_nonneg l); lia
+                        | apply forgiving_next; now apply utf8_starts_ok, utf8_wf].
+  rewrite sub_suffix, usv_eq_dec by exact W. reflexivity.
+Qed.
+
+(* ------------------------------------------------------------------ chars / rchars *)
+
+(** a step as the deque refinement sees it: the model result without the panic wrapper;
+    [chars_never_panics] shows nothing is lost on valid strings *)
+Definition unres {A} (r : res (option A)) : option A :=
+  match r with Ok o => o | _ => None end.
+
+Definition chars_next' (st : chars_st) := unres (chars_next st).
+Definition chars_next_back' (st : chars_st) := unres (chars_next_back st).
+Definition chars_inv (st : chars_st) : Prop := utf8 (c_this st) = true.
+Definition chars_abs (st : chars_st) : list Z := chars (c_this st).
+
+Lemma chars_app_wf_r l e : utf8 l = true -> wf e -> chars (l ++ e) = chars l ++ [dec_char e].
+Proof.
+  intros U W. apply utf8_iff in U as (es & -> & F).
+  replace (concat es ++ e) with (concat (es ++ [e])) by (rewrite concat_app; cbn [concat]; now rewrite app_nil_r).
+  rewrite !chars_concat; [now rewrite map_app | exact F | apply Forall_app; split; [exact F | now constructor]].
+Qed.
+
+(** what [next] does on a valid remaining string *)
+Lemma chars_next_spec st : chars_inv st ->
+  (c_this st = [] /\ chars_next st = Ok None) \/
+  (exists e r, c_this st = e ++ r /\ wf e /\ utf8 r = true /\
+     chars_next st = Ok (Some (dec_char e, {| c_this := r; c_base := c_base st + zlen e |}))).
+Proof.
+  unfold chars_inv. intros U. destruct (utf8_segs _ U) as (es & _ & E & F).
+  destruct F as [|e es He F]; [left | right].
+  - cbn [concat] in E. unfold chars_next. rewrite E. split; reflexivity.
+  - cbn [concat] in E. exists e, (concat es). pose proof (utf8_concat es F) as Ur.
+    split; [exact E|]. split; [exact He|]. split; [exact Ur|].
+    unfold chars_next, chars_move. rewrite E, front_step_wf by trivial. cbn [fst snd].
+    replace (zlen (concat es)) with (zlen (e ++ concat es) - zlen e) by (rewrite zlen_app; lia).
+    now rewrite sub_suffix.
+Qed.
+
+Lemma chars_next_back_spec st : chars_inv st ->
+  (c_this st = [] /\ chars_next_back st = Ok None) \/
+  (exists l e, c_this st = l ++ e /\ utf8 l = true /\ wf e /\
+     chars_next_back st = Ok (Some (dec_char e, {| c_this := l; c_base := c_base st + 0 |}))).
+Proof.
+  unfold chars_inv. intros U. destruct (utf8_segs _ U) as (es & _ & E & F).
+  destruct es as [|e0 es0] eqn:Ees; [left | right].
+  - cbn [concat] in E. unfold chars_next_back. rewrite E. split; reflexivity.
+  - assert (Nn : es <> []) by (rewrite Ees; discriminate). rewrite <- Ees in *.
+    destruct (exists_last Nn) as (es' & e & ->).
+    apply Forall_app in F as [F' Fe]. inversion Fe as [|? ? He _]; subst.
+    rewrite concat_app in E. cbn [concat] in E. rewrite app_nil_r in E.
+    exists (concat es'), e. pose proof (utf8_concat es' F') as Ul.
+    split; [exact E|]. split; [exact Ul|]. split; [exact He|].
+    unfold chars_next_back, chars_move. rewrite E, back_step_wf by trivial. cbn [fst snd].
+    now rewrite sub_prefix.
+Qed.
+
+Lemma chars_next_ok st : chars_inv st ->
+  match chars_next' st with
+  | None => chars_abs st = []
+  | Some (x, st') => chars_abs st = x :: chars_abs st' /\ chars_inv st'
+  end.
+Proof.
+  intros I. unfold chars_next', chars_abs. destruct (chars_next_spec st I) as [[E ->] | (e & r & E & W & U & ->)];
+    cbn [unres]; rewrite E; [reflexivity|].
+  cbn [c_this]. split; [now apply chars_app_wf | exact U].
+Qed.
+
+Lemma chars_next_back_ok st : chars_inv st ->
+  match chars_next_back' st with
+  | None => chars_abs st = []
+  | Some (x, st') => chars_abs st = chars_abs st' ++ [x] /\ chars_inv st'
+  end.
+Proof.
+  intros I. unfold chars_next_back', chars_abs.
+  destruct (chars_next_back_spec st I) as [[E ->] | (l & e & E & U & W & ->)];
+    cbn [unres]; rewrite E; [reflexivity|].
+  cbn [c_this]. split; [now apply chars_app_wf_r | exact U].
+Qed.
+
+(** C07: EVERY interleaving of front and back steps of [chars(s)] yields std's chars *)
+Theorem chars_refines s : utf8 s = true -> forall h,
+  run _ _ chars_next' chars_next_back' h (chars_init s) = deque_run h (chars s).
+Proof.
+  intros U h.
+  exact (run_refines _ _ chars_next' chars_next_back' chars_abs chars_inv
+           chars_next_ok chars_next_back_ok h (chars_init s) U).
+Qed.
+
+(** reversing a refinement: the same two steps with the roles swapped refine the reversed deque *)
+Section RevRefine.
+  Variables St Item : Type.
+  Variable next next_back : St -> option (Item * St).
+  Variable abs : St -> list Item.
+  Variable Inv : St -> Prop.
+  Hypothesis next_ok : forall st, Inv st ->
+    match next st with
+    | None => abs st = []
+    | Some (x, st') => abs st = x :: abs st' /\ Inv st'
+    end.
+  Hypothesis next_back_ok : forall st, Inv st ->
+    match next_back st with
+    | None => abs st = []
+    | Some (x, st') => abs st = abs st' ++ [x] /\ Inv st'
+    end.
+  Theorem rev_run_refines : forall h st, Inv st ->
+    run _ _ next_back next h st = deque_run h (rev (abs st)).
+  Proof.
+    apply (run_refines _ _ next_back next (fun st => rev (abs st)) Inv).
+    - intros st I. pose proof (next_back_ok st I) as H. destruct (next_back st) as [[x st']|].
+      + destruct H as [E I']. split; [|exact I']. rewrite E, rev_app_distr. reflexivity.
+      + now rewrite H.
+    - intros st I. pose proof (next_ok st I) as H. destruct (next st) as [[x st']|].
+      + destruct H as [E I']. split; [|exact I']. rewrite E. reflexivity.
+      + now rewrite H.
+  Qed.
+End RevRefine.
+
+Definition rchars_next' (st : chars_st) := unres (rchars_next st).
+Definition rchars_next_back' (st : chars_st) := unres (rchars_next_back st).
+
+Theorem rchars_refines s : utf8 s = true -> forall h,
+  run _ _ rchars_next' rchars_next_back' h (chars_init s) = deque_run h (rev (chars s)).
+Proof.
+  intros U h.
+  exact (rev_run_refines _ _ chars_next' chars_next_back' chars_abs chars_inv
+           chars_next_ok chars_next_back_ok h (chars_init s) U).
+Qed.
+
+(** ... and no step panics or runs out of fuel while the remaining string is valid *)
+Theorem chars_never_panics st : chars_inv st ->
+  (exists o, chars_next st = Ok o) /\ (exists o, chars_next_back st = Ok o).
+Proof.
+  intros I. split.
+  - destruct (chars_next_spec st I) as [[_ ->] | (e & r & _ & _ & _ & ->)]; eexists; reflexivity.
+  - destruct (chars_next_back_spec st I) as [[_ ->] | (l & e & _ & _ & _ & ->)]; eexists; reflexivity.
+Qed.
